@@ -220,6 +220,18 @@ def targeted_search(rep, diffs, tier, ht):
                             {'section': 'new-dependence-search', 'case': c})
 
 
+def explained_by_known_reader(n, c, ht):
+    """A known host reader (K2) meeting a word its table names differently on this host: not a NEW dependence."""
+    ref = {'errno': DARWIN_ERRNO, 'signals': DARWIN_SIGNALS, 'addressFamily': DARWIN_AF, 'socketKind': DARWIN_SK}
+    words = c['start']
+    for t in ENUM_READERS.get(n, []):
+        if t == 'solSocket' and (ht['solSocket'] in words or DARWIN_SOL in words):
+            return t
+        if t in ref and any(ht[t].get(w) != ref[t].get(w) for w in words):
+            return t
+    return None
+
+
 def pairwise_search(rep, diffs, ht):
     """Two cooperating words: for the UNTRANSLATED decoders (the translator met a construct outside its subset, so the
     theorems say nothing about them) sweep a single flag bit in every START word against every differing errno /
@@ -254,6 +266,11 @@ def pairwise_search(rep, diffs, ht):
                 continue
             if n in bsd_handlers and epos == 0 and ht['errno'].get(ev) != DARWIN_ERRNO.get(ev):
                 continue                               # the error word of a result part: K2a
+            known = explained_by_known_reader(n, c, ht)
+            if known:                                  # e.g. getsockopt whose level word equals the host's SOL_SOCKET: K2e
+                rep.add_failure('host:' + known, 'decoder %s: %r on this host, %r with Darwin tables' % (n, a, b),
+                                {'section': 'new-dependence-pairs', 'case': c, 'table': known})
+                continue
             sec['distinct_nontrivial'] += 1
             rep.add_failure('host:new-dependence:' + n,
                             'decoder %s renders %r on this host and %r with Darwin tables' % (n, a, b),
